@@ -1,10 +1,10 @@
 SPECIFICATION Spec
 CONSTANTS
   Only <- OnlyC07
-  NSpot = 11
-  NTime = 5
-  NVol = 5
-  NStrike = 4
-  NMax = 4
+  NSpot = 15
+  NTime = 7
+  NVol = 7
+  NStrike = 5
+  NMax = 5
 INVARIANT Emit
 CHECK_DEADLOCK FALSE
